@@ -43,6 +43,7 @@ MonInit(sid) ==
     should |-> [c \in 1..d.nc |-> FALSE],
     shsite |-> [c \in 1..d.nc |-> ""],
     fsite  |-> "",
+    fop    |-> "",
     may    |-> [c \in 1..d.nc |-> FALSE],
     op     |-> [t \in 1..d.nt |-> <<>>],
     ended  |-> FALSE,
@@ -129,11 +130,27 @@ OnReq(m0, e) ==
 SortingCall(m, t) == m.cur[t].on /\ m.cur[t].c # 0 /\ ~ApiTry(m.cur[t].api)
                      /\ LET co == D(m.sid).C[m.cur[t].c] IN
                         co.kind \in {"boxed", "ref"} \/ (co.kind = "pois" /\ co.inner \in {"boxed", "ref"})
+\* an owned collection is ordered as ONE unit: inside a sorting acquisition its leaves are taken
+\* contiguously and in the unit's own listing order
+UnitBroken(m, t, l) ==
+  LET d  == D(m.sid)
+      u  == d.unit[l]
+      aq == m.cur[t].acqs IN
+  IF u = 0
+  THEN \* a leaf outside any unit must not split a unit whose members are only partly taken
+       aq # <<>> /\ d.unit[aq[Len(aq)]] # 0
+       /\ LET v == d.unit[aq[Len(aq)]] IN SeqRange(d.raw.arena[v].ms) \ SeqRange(aq) # {}
+  ELSE LET ms == d.raw.arena[u].ms
+           k  == CHOOSE i \in 1..Len(ms) : ms[i] = l IN
+       IF k = 1 THEN (aq # <<>> /\ d.unit[aq[Len(aq)]] # 0 /\ d.unit[aq[Len(aq)]] # u
+                      /\ SeqRange(d.raw.arena[d.unit[aq[Len(aq)]]].ms) \ SeqRange(aq) # {})
+       ELSE aq = <<>> \/ aq[Len(aq)] # ms[k - 1]
 OrderPairs(m, t, l) ==
   IF ~SortingCall(m, t) THEN m
   ELSE LET new == {<<m.cur[t].acqs[i], l>> : i \in 1..Len(m.cur[t].acqs)}
-           m1  == IF \E p \in new : <<p[2], p[1]>> \in m.pairs
-                  THEN Flag(m, "C08", CallSig(m, t, "order-conflict")) ELSE m
+           m0  == IF UnitBroken(m, t, l) THEN Flag(m, "C08", CallSig(m, t, "owned-unit-not-taken-as-one-unit")) ELSE m
+           m1  == IF \E p \in new : <<p[2], p[1]>> \in m0.pairs
+                  THEN Flag(m0, "C08", CallSig(m0, t, "order-conflict")) ELSE m0
        IN [m1 EXCEPT !.pairs = @ \cup new, !.cur[t].acqs = Append(@, l)]
 
 OnAcq(m0, e) ==
@@ -164,7 +181,9 @@ OnRel(m0, e) ==
                   ELSE IF m.hw[e.l] # 0 \/ Readers(m, e.l) # {} THEN "foreign-release"
                   ELSE "release-of-unheld"
            p   == IF m.cur[t].faulted \/ m.dead # {} THEN "C12" ELSE "C05"
-           m1  == Flag(m, p, CallSig(m, t, sym))
+           m1  == Flag(m, p, CallSig(m, t, IF p = "C12"
+                                              THEN (IF m.cur[t].faulted THEN "fault=" \o m.fop ELSE "fault=killed-before") \o "/" \o sym
+                                              ELSE sym))
        IN \* C17: a non-acquiring operation changed the hold state of a lock
           IF m.op[t] # <<>> THEN Flag(m1, "C17", m.op[t][1] \o "/release-of-unheld-in-non-acquiring-operation") ELSE m1
 
@@ -284,7 +303,7 @@ OnFin(m, e) ==
       m3 == IF cu.panicked /\ (HeldBy(m2, t) \ (m2.leaked \cup cu.h0)) # {} /\ ~cu.faulted /\ m2.dead = {}
             THEN Flag(m2, "C11", CallSig(m2, t, "locks-held-after-panic")) ELSE m2
       m4 == IF cu.faulted /\ (HeldBy(m3, t) \ (m3.dead \cup cu.h0)) # {}
-            THEN Flag(m3, "C12", CallSig(m3, t, "locks-held-after-raw-panic")) ELSE m3
+            THEN Flag(m3, "C12", CallSig(m3, t, "fault=" \o m3.fop \o "/locks-held-after-raw-panic")) ELSE m3
   IN [m4 EXCEPT !.cur[t] = NoCall,
                 !.kalive[t] = (e.keyback \/ (cu.rel = "forget" /\ cu.succ /\ ~cu.panicked))]
 
@@ -310,9 +329,10 @@ OnRawPanic(m, e) ==
       cu == m.cur[t]
       ps == IF cu.c # 0 THEN D(m.sid).C[cu.c].pois ELSE {}
       m1 == IF e.op = "unlock" /\ ~HasHold(m, t, e.l, e.m)
-            THEN Flag(m, "C12", CallSig(m, t, "release-of-unheld")) ELSE m
+            THEN Flag(m, "C12", CallSig(m, t, "fault=unlock/release-of-unheld")) ELSE m
   IN [m1 EXCEPT !.dead = @ \cup {e.l}, !.cur[t].faulted = TRUE, !.pend[t] = <<>>,
-                !.fsite = IF cu.c # 0 THEN KindStr(m, cu.c) \o "/" \o cu.api ELSE "nocall",
+                !.fsite = IF cu.c # 0 THEN KindStr(m, cu.c) \o "/" \o cu.api \o "/fault=" \o e.op ELSE "nocall",
+                !.fop = e.op,
                 !.may = [c \in DOMAIN m.may |-> m.may[c] \/ c \in ps]]
 
 OnProbe(m, e) ==
